@@ -63,39 +63,74 @@ def optimum(its, ns, mn, mx):
 
 
 def oracle(case, io):
-    """Every reported position is within 0.5 (+ the displacement delta of the
-    1e10-weight walls, bounded from the output itself) of the unique
-    least-squares optimum among separated, bounded placements; a layer whose
-    targets already are separated and inside the bounds is not moved."""
+    """Every reported position is within 0.5 of the unique least-squares
+    optimum among separated placements inside the bounds (layers that fit);
+    an item whose neighbours leave room around its target is not moved.
+    A deviation above 0.5 is tagged as the known finding soft-wall-slack only
+    if the excess is at most delta_obs = sum|reported - target| / 1e10 (+1e-6);
+    any other failure is reported untagged and takes precedence."""
     if isinstance(io, dict) and "exc" in io:
         return "raised %s" % io["exc"]
     ns, ls, mn, mx = L.model_opts(case["py"]["opts"])
+    eps = F(1, 10 ** 9)        # double arithmetic of the implementation
+    known = None
     for k, layer in enumerate(io["layers"]):
         if not layer:
             continue
         its = L.ordered(layer)
+        n = len(its)
         opt = optimum(its, ns, mn, mx)
-        if opt is None:
-            continue        # does not fit: outside C02's quantifier (C03 covers it)
-        tol = F(1, 2) + L.delta_obs(its) + F(1, 10 ** 9)
-        for it, x in zip(its, opt):
-            if abs(F(it[3]) - x) > tol:
-                return "layer %d: item with target %r width %r reported at %r, optimum %s" % (k, it[0], it[1], it[3], float(x))
+        if opt is not None:     # does not fit: outside C02's quantifier (C03 covers it)
+            dobs = L.delta_obs(its)
+            for it, x in zip(its, opt):
+                excess = abs(F(it[3]) - x) - F(1, 2)
+                if excess > eps:
+                    msg = "layer %d: item with target %r width %r reported at %r, optimum inside the bounds %s" % (
+                        k, it[0], it[1], it[3], float(x))
+                    if excess <= dobs + F(1, 10 ** 6):
+                        if known is None:
+                            known = L.tagged(L.SOFT_WALL, msg + " (excess %.6g over 0.5 <= wall slack %.6g)" % (float(excess), float(dobs)))
+                    else:
+                        return msg
+        # a layer whose targets already are separated and inside the bounds is not moved
         roomy = all(F(b[0]) - F(a[0]) >= L.gap(a, b, ns) for a, b in zip(its, its[1:]))
         if roomy and (mn is None or F(its[0][0]) - F(its[0][1]) / 2 >= F(mn)) and \
                 (mx is None or F(its[-1][0]) + F(its[-1][1]) / 2 <= F(mx)):
             for it in its:
-                if abs(F(it[3]) - F(it[0])) > F(1, 2):
+                if abs(F(it[3]) - F(it[0])) > F(1, 2) + eps:
                     return "layer %d: every item has room at its target, yet target %r is reported at %r" % (k, it[0], it[3])
-    return None
+        # per item: the neighbours' reported positions leave more than gap + 1 on both
+        # sides of the target (a wall neighbour: the bound leaves half the width)
+        for i, it in enumerate(its):
+            t = F(it[0])
+            if i == 0:
+                left = mn is None or t - F(it[1]) / 2 >= F(mn)
+            else:
+                left = t - F(its[i - 1][3]) > L.gap(its[i - 1], it, ns) + 1
+            if not left:
+                continue
+            if i == n - 1:
+                right = mx is None or t + F(it[1]) / 2 <= F(mx)
+            else:
+                right = F(its[i + 1][3]) - t > L.gap(it, its[i + 1], ns) + 1
+            if right and abs(F(it[3]) - t) > F(1, 2) + eps:
+                return "layer %d: item %d has room around its target %r (neighbours reported at %r / %r) yet is reported at %r" % (
+                    k, i, it[0], its[i - 1][3] if i else None, its[i + 1][3] if i < n - 1 else None, it[3])
+    return known
+
+
+def matches_finding(finding, case, failure):
+    return L.matches(finding, failure, L.SOFT_WALL)
 
 
 LEVEL_TEXT = ("Machine-checked Coq theorems for ALL chain problems (any desired positions, weights > 0, gaps): the PAVA "
               "result x satisfies cost y >= cost x + sum w_i (y_i - x_i)^2 for every feasible y (pava_optimal, hence it is "
               "the unique minimiser); instantiated to a layer with its 1e10-weight walls (C02_layer), it beats every "
               "separated placement inside the bounds (C02_beats_bounded), the reported integers are within 1/2 of it "
-              "(C02_rounded) and a layer with room everywhere is not moved (C02_unmoved); model tied to the code by "
-              "differential execution on every run.")
+              "(C02_rounded), a layer with room everywhere is not moved (C02_unmoved) and neither is a single item whose "
+              "neighbours' solved positions leave the gaps around its target (C02_unmoved_item); model tied to the code by "
+              "differential execution on every run. The text's 'among placements inside the bounds' holds only up to the wall "
+              "slack delta (known finding soft-wall-slack; C03_inside_tight_refuted).")
 LEVEL_NOTE = ("Trusted: Coq kernel; extraction re-checked by vm_compute; the harness. Modelled, not verified: "
               "removeOverlap.py / vpsc.py (exact rationals for doubles; the solver's 1e-10 / 1e-4 tolerances make it exact "
               "only up to ~1e-10, disagreements inside the 1e-7 rounding band are counted). The targets of deeper layers "
